@@ -700,7 +700,7 @@ def run_explore(n, case, timeout):
                 outcomes=[finished.get(t) for t in range(n)], probe=None, unfinished=unfinished)
 
 
-def explore_tree(n, limit, timeout, seed, tags=None):
+def explore_tree(n, limit, timeout, seed, tags=None, max_seconds=None):
     """stateless depth-first search over the implementation's own schedule tree (see run_explore)"""
     import hashlib
     import random
@@ -708,7 +708,10 @@ def explore_tree(n, limit, timeout, seed, tags=None):
     todo = [[]]
     runs, bad, nontrivial = 0, [], []
     timeouts = 0
+    t_start = time.monotonic()
     while todo and runs < limit and len(bad) < 3 and timeouts < 2:
+        if max_seconds is not None and time.monotonic() - t_start > max_seconds:
+            break
         prefix = todo.pop(rng.randrange(len(todo)) if rng is not None else -1)
         r = run_explore(n, dict(prefix=prefix, tags=tags), timeout)
         runs += 1
@@ -797,7 +800,7 @@ def main(payload):
     if payload.get("explore_tree"):
         e = payload["explore_tree"]
         return dict(results=[], tree=explore_tree(e["n"], e["limit"], payload.get("timeout", 30), e.get("seed"),
-                                                  e.get("tags")))
+                                                  e.get("tags"), e.get("max_seconds")))
     for case in payload["cases"]:
         if timeouts >= 2:       # a deadlocking implementation: do not wait for every remaining case
             out.append(dict(status="skipped", detail="earlier cases timed out", sched=[], events=[],
